@@ -110,6 +110,134 @@ def families():
     return out
 
 
+# ---- state shapes of opt-in classes without __setstate__ --------------------------------------------------------------------
+# Such an object is restored the way the unpickler's own BUILD does it: dict state into __dict__, (dict|None, slot state) pairs with
+# setattr for the slots, a falsy state is ignored. The enumeration: state shape x class layout x position in the graph x protocol;
+# oracle: the same object pickled with the standard pickle (same state, flag aside).
+SHAPES = ('dict', 'pair', 'pair-none', 'pair-empty-slots', 'none', 'empty')
+LAYOUTS = ('dict-only', 'slots+dict', 'slots-only')
+POSITIONS = ('top', 'child', 'in-list', 'in-dict-under-plain', 'chain')
+
+
+def _noset_class(layout, shape):
+    import pyworkers.remote_pickle as rp
+    name = 'NS_%s_%s' % (layout.replace('+', '_').replace('-', '_'), shape.replace('-', '_'))
+    g = G.__dict__
+    if name in g:
+        return g[name]
+
+    def __getstate__(self, remote=False):
+        G.LOG.append(('get', getattr(self, 'uid', None), bool(remote)))
+        d = dict(getattr(self, '__dict__', {}))
+        sl = {k: getattr(self, k) for k in ('sx', 'sy', 'uid') if k in getattr(type(self), '__slots__', ()) and hasattr(self, k)}
+        return {'dict': d or sl, 'pair': (d, sl), 'pair-none': (None, sl), 'pair-empty-slots': (d, {}), 'none': None, 'empty': {}}[shape]
+    ns = {'__getstate__': __getstate__, '__module__': G.__name__, '__qualname__': name}
+    if layout == 'slots+dict':
+        ns['__slots__'] = ('sx', 'sy')            # the marker base class brings the __dict__
+    elif layout == 'slots-only':
+        ns['__slots__'] = ('sx', 'sy', 'uid', 'kid')
+    # no __dict__ at all is only possible for a duck-typed opt-in class
+    c = type(name, (object,) if layout == 'slots-only' else (rp.SupportRemoteGetState,), ns)
+    g[name] = c
+    return c
+
+
+def _noset_valid(layout, shape):
+    if layout == 'dict-only':
+        return shape in ('dict', 'pair-empty-slots', 'none', 'empty')
+    if layout == 'slots-only':
+        return shape in ('pair-none', 'none', 'empty')
+    return True
+
+
+def _noset_make(layout, shape, position, n):
+    cls = _noset_class(layout, shape)
+
+    def one(i, kid=None):
+        o = cls.__new__(cls)
+        if layout != 'slots-only':
+            o.__dict__['uid'] = 'u%d' % i
+            o.__dict__['v'] = [i, 'x']
+            if kid is not None:
+                o.__dict__['kid'] = kid
+        else:
+            o.uid = 'u%d' % i
+            if kid is not None:
+                o.kid = kid
+        if layout != 'dict-only':
+            o.sx = i * 10
+            o.sy = ['slot', i]
+        return o
+    if position == 'top':
+        return one(1)
+    if position == 'child':
+        parent = G.build(('R', 'RBase', [('a', ('i', 1))]))[0]
+        parent.__dict__['uid'] = 'parent'
+        parent.__dict__['c'] = one(1)
+        return parent
+    if position == 'in-list':
+        return [one(1), 7]
+    if position == 'in-dict-under-plain':
+        p = G.Plain()
+        p.__dict__['d'] = {'k': one(1)}
+        return p
+    return one(1, kid=one(2))
+
+
+def _noset_view(o, seen=None):
+    """Canonical view including slots."""
+    if isinstance(o, list):
+        return ['L'] + [_noset_view(x) for x in o]
+    if isinstance(o, dict):
+        return ['D'] + [[k, _noset_view(v)] for k, v in o.items()]
+    if hasattr(o, '__dict__') or hasattr(type(o), '__slots__'):
+        d = dict(getattr(o, '__dict__', {}))
+        d.pop('_how', None)
+        items = [[k, _noset_view(v)] for k, v in sorted(d.items())]
+        for k in getattr(type(o), '__slots__', ()):
+            if k != '__dict__':
+                items.append(['slot:' + k, _noset_view(getattr(o, k)) if hasattr(o, k) else '<unset>'])
+        return ['O', type(o).__name__, items]
+    return o
+
+
+def noset_part(ctx, protos):
+    import pyworkers.remote_pickle as rp
+    n = 0
+    for layout in LAYOUTS:
+        for shape in SHAPES:
+            if not _noset_valid(layout, shape):
+                continue
+            for position in POSITIONS:
+                if position == 'chain' and (shape in ('none', 'empty') or (layout == 'slots-only' and False)):
+                    continue       # a state which transmits nothing has no child to carry
+                for p in protos:
+                    ctx.count()
+                    ctx.distinct(('noset', layout, shape, position, p))
+                    n += 1
+                    case = {'part': 'no-setstate-state-shapes', 'layout': layout, 'shape': shape, 'position': position, 'protocol': p}
+                    g1 = _noset_make(layout, shape, position, 1)
+                    g2 = _noset_make(layout, shape, position, 1)
+                    try:
+                        ref = ('ok', _noset_view(pickle.loads(pickle.dumps(g2, p))))
+                    except BaseException as e:  # noqa
+                        ref = ('exc', type(e).__name__)
+                    del G.LOG[:]
+                    try:
+                        got = ('ok', _noset_view(rp.loads(rp.dumps(g1, p))))
+                    except BaseException as e:  # noqa
+                        got = ('exc', type(e).__name__)
+                    flags = [e for e in G.LOG if e[0] == 'get' and str(e[1]).startswith('u')]
+                    ok = got == ref and (got[0] != 'ok' or all(e[2] is True for e in flags))
+                    ctx.outcome('noset:' + ('ok' if ok else 'differs'))
+                    if not ok:
+                        what = 'raises-' + got[1] if got[0] == 'exc' and ref[0] == 'ok' else ('state-restored-differently-from-pickle' if got != ref else 'getstate-not-remote')
+                        ctx.violation('GRAPH/no-setstate-state-shapes/%s/%s/%s' % (layout, shape, what), case,
+                                      {'remote_pickle': repr(got)[:300], 'pickle': repr(ref)[:300], 'getstate_calls': flags[:6]},
+                                      'restored like the unpickler restores the same state, __getstate__(remote=True) once per instance', engine='GRAPH')
+    ctx.extra['no_setstate_state_shape_cases'] = n
+
+
 def run(ctx):
     import logging
     logging.disable(logging.CRITICAL)
@@ -143,6 +271,7 @@ def run(ctx):
             sigs[sg] = sigs.get(sg, 0) + n_
     # distinct cases were counted inside the shards (every (graph, protocol) pair is distinct by construction)
 
+    noset_part(ctx, (None, 0, 2) if ctx.quick else (None, 0, 1, 2, 3, 4, 5))
     ctx.sample({'spec': specs[len(specs) // 2], 'features': sorted(G.features(specs[len(specs) // 2]))})
     ctx.sample({'spec': specs[-1], 'features': sorted(G.features(specs[-1]))})
     ctx.extra['graphs'] = len(specs)
@@ -154,6 +283,11 @@ def run(ctx):
 
 def replay(ctx, rec):
     import json
+    if rec['case'].get('part') == 'no-setstate-state-shapes':
+        import logging
+        logging.disable(logging.CRITICAL)
+        noset_part(ctx, (rec['case']['protocol'],))
+        return
     spec = json.loads(json.dumps(rec['case']['spec']))
     sigs = {}
     ctx.count()
